@@ -359,7 +359,7 @@ func peers(x *mon.Ctx) {
 
 	// ---- candidates derived from valid points: edge multiples and random points
 	S := structured()
-	nbase := x.Scale(24, 200)
+	nbase := x.Scale(16, 200)
 	nclasses := len(invalidFrom(mon.NewRand(0, "shape"), ec.G))
 	for bi := 0; bi < nbase; bi++ {
 		for ci := 0; ci < nclasses; ci++ {
@@ -410,7 +410,7 @@ func peers(x *mon.Ctx) {
 	}
 
 	// ---- every single-bit alteration of valid encodings (verdict from the reference)
-	for i := 0; i < x.Scale(16, 120); i++ {
+	for i := 0; i < x.Scale(10, 120); i++ {
 		c := x.Begin("bit-flip sweep over the encoding of a valid point #%d", i)
 		if c == nil {
 			continue
